@@ -132,6 +132,104 @@ def gen_bound(rep, u, fname="ini_buf_gen", buf="buf", size="buf_size"):
     return n
 
 
+# ------------------------------------------------------------------ R-CAP: capacity field vs allocation size
+
+def _lin(fn, e, depth=0):
+    """linear form {atom: coeff, '': const} of an integer expression; locals with exactly one definition are expanded"""
+    e = strip_casts(e)
+    if e is None:
+        return None
+    cv = const_val(e)
+    if cv is not None:
+        return {"": cv}
+    k = e.get("k")
+    if k == "sizeof" and "cv" in e:
+        return {"": int(e["cv"])}
+    if k == "lazy":
+        return None
+    if k == "ref" and e.get("dk") == "local" and depth < 3:
+        defs = [x["y"] for _p, _r, x, _ps in fn.nodes() if x.get("k") == "bin" and x["op"] == "=" and core.is_ref(strip_casts(x["x"]), id=e.get("id"))]
+        for _p, _r, x, _ps in fn.nodes():
+            if x.get("k") == "decl":
+                defs += [v["init"] for v in x.get("vars", []) if v.get("id") == e.get("id") and v.get("init") is not None]
+        if len(defs) == 1:
+            r = _lin(fn, defs[0], depth + 1)
+            if r is not None:
+                return r
+        return {key(e): 1}
+    if k in ("ref", "mem"):
+        return {key(e): 1}
+    if k == "bin" and e["op"] in ("+", "-"):
+        a, b = _lin(fn, e["x"], depth), _lin(fn, e["y"], depth)
+        if a is None or b is None:
+            return None
+        r = dict(a)
+        for kk, v in b.items():
+            r[kk] = r.get(kk, 0) + (v if e["op"] == "+" else -v)
+        return {kk: v for kk, v in r.items() if v or kk == ""}
+    if k == "bin" and e["op"] == "*":
+        a, b = _lin(fn, e["x"], depth), _lin(fn, e["y"], depth)
+        for p_, q_ in ((a, b), (b, a)):
+            if p_ is not None and q_ is not None and set(q_) <= {""}:
+                return {kk: v * q_.get("", 0) for kk, v in p_.items()}
+    return None
+
+
+def capacity_field_rule(rep, u, field="data_allocated_size", hdr_rec="ini_line_s"):
+    """every store to the capacity field of a line record is (allocation size of the record) - sizeof(header): the data
+    area begins right behind the header, and the 'fits without realloc' test compares this field with the new data size"""
+    hdr = (u.records.get(hdr_rec) or {}).get("size")
+    if not hdr:
+        raise driver.AnalysisBroken("record %s not found" % hdr_rec)
+    n = 0
+    for fn in u.function_list:
+        if fn.relfile() != INI_C or not fn.has_cfg:
+            continue
+        for pos, root, x, ps in fn.nodes():
+            if not (x.get("k") == "bin" and x["op"] == "=" and strip_casts(x["x"]).get("k") == "mem" and strip_casts(x["x"])["f"] == field):
+                continue
+            obj = strip_casts(strip_casts(x["x"])["b"])
+            n += 1
+            rep.functions.add(fn.name)
+            inst = "capacity:%s@%s" % (field, fn.name)
+            desc = "%s: the capacity stored in %s is the size handed to the allocator minus the %d-byte header" % (fn.name, key(x["x"]), hdr)
+            # the allocation of this object that dominates the store
+            alloc = None
+            for p2, r2, c, ps2 in fn.calls({"calloc", "malloc", "realloc", "reallocarray"}):
+                if not fn.pos_dominates(p2, pos):
+                    continue
+                tgt = [l for l, r in core.assigned_lhs(r2) if any(y is c for y, _ in walk(r))]
+                if tgt and key(strip_casts(tgt[0])) == key(obj):
+                    alloc = c
+            if alloc is None:
+                rep.undecided("R-CAP", fn, inst, desc, "no dominating allocation of %s found" % key(obj), x.get("ln"))
+                continue
+            size_e = {"calloc": None, "malloc": alloc["args"][0], "realloc": alloc["args"][-1]}.get(alloc["fn"])
+            if alloc["fn"] == "calloc":
+                a0, a1 = _lin(fn, alloc["args"][0]), _lin(fn, alloc["args"][1])
+                S = None
+                if a0 is not None and set(a0) <= {""} and a1 is not None:
+                    S = {kk: v * a0.get("", 0) for kk, v in a1.items()}
+            else:
+                S = _lin(fn, size_e) if size_e is not None else None
+            V = _lin(fn, x["y"])
+            if S is None or V is None:
+                rep.undecided("R-CAP", fn, inst, desc, "size expressions not linear", x.get("ln"))
+                continue
+            d = dict(S)
+            for kk, v in V.items():
+                d[kk] = d.get(kk, 0) - v
+            d = {kk: v for kk, v in d.items() if v}
+            if d == {"": hdr}:
+                rep.proved("R-CAP", fn, inst, desc, "%s(...) size minus stored capacity = %d" % (alloc["fn"], hdr), x.get("ln"))
+            else:
+                rep.violated("R-CAP", fn, inst, desc, "allocation size minus stored capacity is %s instead of %d: the capacity is %s, the next "
+                             "'fits in place' test lets a longer value be copied past the block" % (
+                                 " + ".join("%s*%s" % (v, kk) if kk else str(v) for kk, v in sorted(d.items())) or "0", hdr,
+                                 "over-stated" if d.get("", 0) < hdr and set(d) <= {""} else "inconsistent"), x.get("ln"))
+    return n
+
+
 # ------------------------------------------------------------------ R-AGREE calc vs gen
 
 def calc_gen_agree(rep, u):
@@ -492,6 +590,7 @@ def run(rep, tier):
     rep.floor("free() sites", no, 2)
     n += repoint_rule(rep, u)
     rep.floor("single obligations", n, 4)
+    rep.floor("capacity field stores", capacity_field_rule(rep, u), 2)
     return driver.finish(
         rep, "other",
         "INI store, structural clauses: generator writes guarded by offset+pending <= capacity (grid evaluation of the guard), size "
